@@ -1,12 +1,343 @@
 (** C09 — bitstr order and truncate-compare.  Only the property theorems, each
-    closed by [exact], their axiom audit, and non-vacuity examples. *)
+    closed by [exact], their axiom audit, and non-vacuity examples.
+
+    Vocabulary (Spec/BitstrSpec.v): [B s f t] = the bits s[8*floor(f/8), t);
+    [encB b] = the canonical encoding of an arbitrary bit list (packed MSB
+    first, zero padded, then the mask byte); [bits_cmp] = lexicographic order on
+    bit lists, proper prefix first (Lib/Lex.v); [upto a b] = the first |b| bits of
+    the plain bytes a (all of a when shorter).  [Some r] = the Go function
+    returns r without panicking.  No bound on any length: [int]/[int32] are
+    unbounded [Z] in the model (strings with 8*len+7 >= 2^31 are outside the
+    statement: their bit positions do not fit New's int32 arguments). *)
 From Coq Require Import ZArith List Bool.
-From Low Require Import Lib.MachInt Lib.Bits Lib.BitSeq Lib.Bytes Lib.Lex Lib.Pack_bw Model.Bitstr Spec.BitstrSpec Proofs.BitstrProofs.
+From Low Require Import Lib.MachInt Lib.Bits Lib.BitSeq Lib.Bytes Lib.Lex Lib.Pack_bw Lib.Val Model.Bitstr Model.Bitstr32 Spec.BitstrSpec Spec.BitstrSearchSpec Spec.BitstrDecodeSpec Proofs.BitstrProofs Proofs.BitstrSearchProofs Proofs.Bitstr32Proofs Proofs.BitstrDecodeProofs.
 Import ListNotations.
 Open Scope Z_scope.
 
-(** StrCmpUpto and CmpUpto always agree (in the model the unsafe cast is the
-    identity on the bytes; its memory safety is monitored, not proved). *)
+(** New(s, from, to) is the canonical encoding of the bit string s[8*floor(from/8), to) *)
+Theorem C09_new : forall s f t, bytes_ok s -> 0 <= f <= t -> t <= 8 * zlen s ->
+  New s f t = Some (encB (B s f t)).
+Proof. exact New_encB. Qed.
+Print Assumptions C09_new.
+
+(** Len of the encoding of ANY bit list is its length in bits *)
+Theorem C09_len : forall b, Len (encB b) = Some (zlen b).
+Proof. exact Len_encB. Qed.
+Print Assumptions C09_len.
+
+(** Cmp of the encodings of ANY two bit lists is the sign of their lexicographic comparison *)
+Theorem C09_cmp : forall b1 b2, Cmp (encB b1) (encB b2) = Some (cmp_sign (bits_cmp b1 b2)).
+Proof. exact Cmp_encB. Qed.
+Print Assumptions C09_cmp.
+
+(** … hence a total order: 0 exactly for equal bit strings (so encB is injective), … *)
+Theorem C09_cmp_zero_iff : forall b1 b2, Cmp (encB b1) (encB b2) = Some 0 <-> b1 = b2.
+Proof. exact Cmp_zero_iff. Qed.
+Print Assumptions C09_cmp_zero_iff.
+
+(** … antisymmetric, … *)
+Theorem C09_cmp_antisym : forall b1 b2,
+  Cmp (encB b2) (encB b1) = option_map Z.opp (Cmp (encB b1) (encB b2)).
+Proof. exact Cmp_antisym. Qed.
+Print Assumptions C09_cmp_antisym.
+
+(** … transitive, … *)
+Theorem C09_cmp_trans : forall b1 b2 b3,
+  Cmp (encB b1) (encB b2) = Some (-1) -> Cmp (encB b2) (encB b3) = Some (-1) ->
+  Cmp (encB b1) (encB b3) = Some (-1).
+Proof. exact Cmp_lt_trans. Qed.
+Print Assumptions C09_cmp_trans.
+
+(** … a proper prefix sorts first, and otherwise the first differing bit decides *)
+Theorem C09_cmp_prefix : forall b r, r <> [] -> Cmp (encB b) (encB (b ++ r)) = Some (-1).
+Proof. exact Cmp_prefix. Qed.
+Print Assumptions C09_cmp_prefix.
+
+Theorem C09_cmp_first_diff : forall c r1 r2,
+  Cmp (encB (c ++ false :: r1)) (encB (c ++ true :: r2)) = Some (-1).
+Proof. exact Cmp_first_diff. Qed.
+Print Assumptions C09_cmp_first_diff.
+
+(** CmpUpto(a, e) compares the first Len(e) bits of the plain bytes a with e's bit string *)
+Theorem C09_cmpupto : forall a b, bytes_ok a ->
+  CmpUpto a (encB b) = Some (cmp_sign (bits_cmp (upto a b) b)).
+Proof. exact CmpUpto_encB. Qed.
+Print Assumptions C09_cmpupto.
+
+(** … so it is 0 exactly when the bit string is a prefix of a's bits
+    ([upto a b = b] forces 8*len(a) >= |b|) *)
+Theorem C09_cmpupto_zero_iff : forall a b, bytes_ok a ->
+  CmpUpto a (encB b) = Some 0 <-> upto a b = b.
+Proof. exact CmpUpto_zero_iff. Qed.
+Print Assumptions C09_cmpupto_zero_iff.
+
+(** StrCmpUpto and CmpUpto always agree.  PARTIAL BY DESIGN (DESIGN §6 C09): in
+    the model the string->slice re-typing (unsafe) is the identity on the bytes.
+    Since the fix 907cc2b the slice header is built explicitly (Cap = Len), so the
+    cast is well-formed; what is NOT proved is that no store ever goes through the
+    alias of the immutable string — it is monitored by the bitstr.StrCmpUpto
+    operation on every case (result = CmpUpto on a copy, inputs unchanged). *)
 Theorem C09_StrCmpUpto : forall a b, StrCmpUpto a b = CmpUpto a b.
 Proof. exact StrCmpUpto_eq. Qed.
 Print Assumptions C09_StrCmpUpto.
+
+(** hence StrCmpUpto has CmpUpto's meaning (in the model; see the remark above) *)
+Theorem C09_strcmpupto : forall a b, bytes_ok a ->
+  StrCmpUpto a (encB b) = Some (cmp_sign (bits_cmp (upto a b) b)).
+Proof. exact StrCmpUpto_encB. Qed.
+Print Assumptions C09_strcmpupto.
+
+(** cmpBytes is bytes.Compare on both sides of its 8-byte switch, on every call
+    whose manual loop stays in range (all calls CmpUpto makes) … *)
+Theorem C09_cmpBytes : forall a b, (length a <= length b)%nat \/ 8 <= zlen a ->
+  cmpBytes a b = Some (cmp_sign (bytes_cmp a b)).
+Proof. exact cmpBytes_eq. Qed.
+Print Assumptions C09_cmpBytes.
+
+(** … and it indexes out of range exactly when a is shorter than 8 bytes and b is a proper prefix of a *)
+Theorem C09_cmpBytes_panic : forall a b,
+  cmpBytes a b = None <-> zlen a < 8 /\ exists r, r <> [] /\ a = b ++ r.
+Proof. exact cmpBytes_panic. Qed.
+Print Assumptions C09_cmpBytes_panic.
+
+(** the compositions that the protocol operations run, against the spec functions they use *)
+Theorem C09_len_new : forall s f t, bytes_ok s -> 0 <= f <= t -> t <= 8 * zlen s ->
+  match New s f t with Some e => Len e | None => None end = Some (spec_Len s f t).
+Proof. exact Len_New. Qed.
+Print Assumptions C09_len_new.
+
+(** … whose value is to - 8*floor(from/8) *)
+Theorem C09_len_new_value : forall s f t, bytes_ok s -> 0 <= f <= t -> t <= 8 * zlen s ->
+  match New s f t with Some e => Len e | None => None end = Some (t - 8 * (f / 8)).
+Proof. exact Len_New_value. Qed.
+Print Assumptions C09_len_new_value.
+
+Theorem C09_cmp_new : forall s1 f1 t1 s2 f2 t2,
+  bytes_ok s1 -> 0 <= f1 <= t1 -> t1 <= 8 * zlen s1 ->
+  bytes_ok s2 -> 0 <= f2 <= t2 -> t2 <= 8 * zlen s2 ->
+  match New s1 f1 t1, New s2 f2 t2 with Some e1, Some e2 => Cmp e1 e2 | _, _ => None end
+  = Some (spec_Cmp s1 f1 t1 s2 f2 t2).
+Proof. exact Cmp_New. Qed.
+Print Assumptions C09_cmp_new.
+
+Theorem C09_cmpupto_new : forall a s f t, bytes_ok a -> bytes_ok s -> 0 <= f <= t -> t <= 8 * zlen s ->
+  match New s f t with Some e => CmpUpto a e | None => None end = Some (spec_CmpUpto a s f t).
+Proof. exact CmpUpto_New. Qed.
+Print Assumptions C09_cmpupto_new.
+
+(** * WIDENED: how the functions are combined by users *)
+
+(** truncate-compare is the comparison of the truncation:
+    CmpUpto(a, e) = Cmp(New(a, 0, min(8*len(a), Len(e))), e)   (op bitstr.CmpUpto/viaNew) *)
+Theorem C09_cmpupto_via_new : forall a b, bytes_ok a ->
+  CmpUpto a (encB b) =
+  match New a 0 (Z.min (8 * zlen a) (zlen b)) with Some e => Cmp e (encB b) | None => None end.
+Proof. exact CmpUpto_via_New. Qed.
+Print Assumptions C09_cmpupto_via_new.
+
+(** CmpUpto(., e) is monotone along Go's string order … *)
+Theorem C09_cmpupto_monotone : forall a1 a2 b r1 r2, bytes_ok a1 -> bytes_ok a2 ->
+  bytes_cmp a1 a2 <> Gt ->
+  CmpUpto a1 (encB b) = Some r1 -> CmpUpto a2 (encB b) = Some r2 -> r1 <= r2.
+Proof. exact CmpUpto_mono. Qed.
+Print Assumptions C09_cmpupto_monotone.
+
+(** … so among sorted keys those that start with the bit string form one contiguous block
+    (a binary search with CmpUpto / StrCmpUpto is sound) … *)
+Theorem C09_cmpupto_block : forall a1 a2 a3 b, bytes_ok a1 -> bytes_ok a2 -> bytes_ok a3 ->
+  bytes_cmp a1 a2 <> Gt -> bytes_cmp a2 a3 <> Gt ->
+  CmpUpto a1 (encB b) = Some 0 -> CmpUpto a3 (encB b) = Some 0 -> CmpUpto a2 (encB b) = Some 0.
+Proof. exact CmpUpto_block. Qed.
+Print Assumptions C09_cmpupto_block.
+
+(** … and over a whole sorted key list no call panics, the results are the spec's and
+    non-decreasing (-1…, 0…, 1…)   (op bitstr.CmpUpto/sorted) *)
+Theorem C09_search_sorted : forall ks b, Forall bytes_ok ks -> keys_sortedb ks = true ->
+  exists rs, opt_all (map (fun k => CmpUpto k (encB b)) ks) = Some rs /\
+             rs = spec_search ks b /\ nondecb rs = true.
+Proof. exact search_sorted. Qed.
+Print Assumptions C09_search_sorted.
+
+(** cutting the same string at a later bit gives a larger bit string (equal only for the same cut) *)
+Theorem C09_cmp_new_extend : forall s t1 t2, bytes_ok s -> 0 <= t1 <= t2 -> t2 <= 8 * zlen s ->
+  exists r, match New s 0 t1, New s 0 t2 with Some e1, Some e2 => Cmp e1 e2 | _, _ => None end = Some r
+            /\ r <= 0 /\ (r = 0 <-> t1 = t2).
+Proof. exact Cmp_New_extend. Qed.
+Print Assumptions C09_cmp_new_extend.
+
+(** a whole string encodes as itself plus 0xff, and on whole strings Cmp is Go's string order *)
+Theorem C09_new_whole : forall s, bytes_ok s -> New s 0 (8 * zlen s) = Some (s ++ [255]).
+Proof. exact New_whole. Qed.
+Print Assumptions C09_new_whole.
+
+Theorem C09_cmp_whole : forall x y, bytes_ok x -> bytes_ok y ->
+  Cmp (x ++ [255]) (y ++ [255]) = Some (cmp_sign (bytes_cmp x y)).
+Proof. exact Cmp_whole. Qed.
+Print Assumptions C09_cmp_whole.
+
+(** * WIDENED: the int32 arithmetic of New / Len made explicit (Model/Bitstr32.v; the
+    protocol operations run this model) *)
+
+(** below the top of the int32 range the wraps are invisible … *)
+Theorem C09_new32_eq : forall s f t, 0 <= f <= t -> t + 7 < 2 ^ 31 -> New32 s f t = New s f t.
+Proof. exact New32_eq. Qed.
+Print Assumptions C09_new32_eq.
+
+Theorem C09_len32_eq : forall bs, 8 * zlen bs < 2 ^ 31 -> bytes_ok bs -> Len32 bs = Len bs.
+Proof. exact Len32_eq. Qed.
+Print Assumptions C09_len32_eq.
+
+(** … so C09_new and C09_len hold of the int32 model on that range *)
+Theorem C09_new32 : forall s f t, bytes_ok s -> 0 <= f <= t -> t <= 8 * zlen s -> t + 7 < 2 ^ 31 ->
+  New32 s f t = Some (encB (B s f t)).
+Proof. exact New32_encB. Qed.
+Print Assumptions C09_new32.
+
+Theorem C09_len32 : forall b, 8 * zlen (encB b) < 2 ^ 31 -> Len32 (encB b) = Some (zlen b).
+Proof. exact Len32_encB. Qed.
+Print Assumptions C09_len32.
+
+(** FINDING (boundary): the hypothesis [toBit + 7 < 2^31] cannot be dropped.  Within 7
+    bits of MaxInt32, [(toBit+7)>>3] overflows int32 and [make] gets a negative length,
+    whatever the string: New panics although from/to are valid int32 values … *)
+Theorem C09_new32_top_panics : forall s f t, 0 <= f <= t -> 2 ^ 31 - 7 <= t < 2 ^ 31 ->
+  New32 s f t = None.
+Proof. exact New32_top. Qed.
+Print Assumptions C09_new32_top_panics.
+
+(** … and such a call lies inside the property's literal domain 0 <= from <= to <= 8*len(s)
+    (a string of 2^28 bytes; replayed on the real code: "makeslice: len out of range"). *)
+Theorem C09_new_full_int32_range_refuted : exists s f t,
+  bytes_ok s /\ 0 <= f <= t /\ t <= 8 * zlen s /\ in_i32 f /\ in_i32 t /\ New32 s f t = None.
+Proof. exact New32_top_witness. Qed.
+Print Assumptions C09_new_full_int32_range_refuted.
+
+(** * WIDENED: the encodings as a decidable set of byte strings, and decoding
+    ([wf_enc], [decB] of Spec/BitstrDecodeSpec.v) *)
+
+(** the canonical encodings are exactly the well-formed byte strings … *)
+Theorem C09_wf_iff : forall e, wf_enc e = true <-> exists b, e = encB b.
+Proof. exact wf_iff. Qed.
+Print Assumptions C09_wf_iff.
+
+(** … decoding inverts encoding, both ways … *)
+Theorem C09_decode_encode : forall b, decB (encB b) = b.
+Proof. exact decB_encB. Qed.
+Print Assumptions C09_decode_encode.
+
+Theorem C09_encode_decode : forall e, wf_enc e = true -> encB (decB e) = e.
+Proof. exact encB_decB. Qed.
+Print Assumptions C09_encode_decode.
+
+(** … New produces a well-formed encoding that decodes to the bits of the range
+    (op bitstr.New/decode) … *)
+Theorem C09_new_decodes : forall s f t e, bytes_ok s -> 0 <= f <= t -> t <= 8 * zlen s ->
+  New s f t = Some e -> wf_enc e = true /\ decB e = B s f t.
+Proof. exact New_wf. Qed.
+Print Assumptions C09_new_decodes.
+
+(** … and Len / Cmp / CmpUpto on ANY well-formed byte strings are length / order /
+    truncated order of the bit strings they denote *)
+Theorem C09_len_wf : forall e, wf_enc e = true -> Len e = Some (zlen (decB e)).
+Proof. exact Len_wf. Qed.
+Print Assumptions C09_len_wf.
+
+Theorem C09_cmp_wf : forall e1 e2, wf_enc e1 = true -> wf_enc e2 = true ->
+  Cmp e1 e2 = Some (cmp_sign (bits_cmp (decB e1) (decB e2))).
+Proof. exact Cmp_wf. Qed.
+Print Assumptions C09_cmp_wf.
+
+Theorem C09_cmpupto_wf : forall a e, bytes_ok a -> wf_enc e = true ->
+  CmpUpto a e = Some (cmp_sign (bits_cmp (upto a (decB e)) (decB e))).
+Proof. exact CmpUpto_wf. Qed.
+Print Assumptions C09_cmpupto_wf.
+
+(** * non-vacuity: the hypotheses are satisfiable and the statements say something
+    ("abc" = 0x61 0x62 0x63; the doc example New("abc", 5, 12)) *)
+Example C09_new_nonvacuous :
+  bytes_ok [97; 98; 99] /\ 0 <= 5 <= 12 /\ 12 <= 8 * zlen [97; 98; 99] /\
+  B [97; 98; 99] 5 12 = [false; true; true; false; false; false; false; true; false; true; true; false] /\
+  New [97; 98; 99] 5 12 = Some [0x61; 0x60; 0xf0] /\
+  New [97; 98; 99] 8 8 = Some [0xff] /\ New [97; 98; 99] 3 3 = Some [0x60; 0xe0] /\
+  New [97; 98; 99] 0 24 = Some [97; 98; 99; 0xff].
+Proof.
+  repeat match goal with |- _ /\ _ => split end;
+    try (apply bytes_okb_ok; reflexivity); try (vm_compute; reflexivity); vm_compute; congruence.
+Qed.
+
+Example C09_len_nonvacuous :
+  Len (encB []) = Some 0 /\ Len (encB [true; false; true]) = Some 3 /\
+  encB [true; false; true] = [0xa0; 0xe0] /\
+  Len (encB (repeat true 8)) = Some 8 /\ encB (repeat true 8) = [0xff; 0xff] /\
+  Len (encB (repeat false 17)) = Some 17.
+Proof. repeat split; vm_compute; reflexivity. Qed.
+
+Example C09_cmp_nonvacuous :
+  (* same byte length, tie broken by the mask byte: 0 < 00 *)
+  Cmp (encB [false]) (encB [false; false]) = Some (-1) /\
+  (* different byte lengths, equal payload prefix *)
+  Cmp (encB (repeat false 8)) (encB (repeat false 9)) = Some (-1) /\
+  Cmp (encB [true]) (encB [false; true; true]) = Some 1 /\
+  Cmp (encB []) (encB []) = Some 0 /\ Cmp (encB [true]) (encB []) = Some 1 /\
+  (* the order is not the order of the encodings as byte strings: [0xff] vs [0x00,0x80] *)
+  Cmp (encB []) (encB [false]) = Some (-1) /\ bytes_cmp (encB []) (encB [false]) = Gt.
+Proof. repeat split; vm_compute; reflexivity. Qed.
+
+Example C09_cmpupto_nonvacuous :
+  bytes_ok [0x61; 0x7f] /\
+  (* a longer than the payload: bits of a after Len(b) are ignored *)
+  CmpUpto [0x61; 0x7f] (encB [false; true; true; false; false; false; false; true; false]) = Some 0 /\
+  upto [0x61; 0x7f] [false; true; true] = [false; true; true] /\
+  CmpUpto [0x61; 0x7f] (encB [false; true; true; false; false; false; false; true; true]) = Some (-1) /\
+  (* a shorter than the payload: a proper prefix sorts first *)
+  CmpUpto [0x61] (encB [false; true; true; false; false; false; false; true; false]) = Some (-1) /\
+  CmpUpto [] (encB []) = Some 0 /\ CmpUpto [0x80] (encB [false]) = Some 1.
+Proof.
+  repeat match goal with |- _ /\ _ => split end;
+    try (apply bytes_okb_ok; reflexivity); try (vm_compute; reflexivity); vm_compute; congruence.
+Qed.
+
+Example C09_cmpBytes_nonvacuous :
+  cmpBytes [1; 2] [1; 2; 0] = Some (-1) /\ cmpBytes [1; 3] [1; 2; 0] = Some 1 /\
+  cmpBytes [1; 2; 3] [1; 2] = None /\ cmpBytes [1; 3; 3] [1; 2] = Some 1 /\
+  cmpBytes [1; 2; 3; 4; 5; 6; 7; 8; 9] [1; 2] = Some 1 /\
+  cmpBytes [1; 2; 3; 4; 5; 6; 7; 8] [1; 2; 3; 4; 5; 6; 7; 9] = Some (-1).
+Proof. repeat split; vm_compute; reflexivity. Qed.
+
+Example C09_search_nonvacuous :
+  let ks := [[0x60]; [0x61]; [0x61; 0x00]; [0x61; 0xff]; [0x62]] in
+  let b := [false; true; true; false; false; false; false; true] in   (* 'a' *)
+  Forall bytes_ok ks /\ keys_sortedb ks = true /\
+  opt_all (map (fun k => CmpUpto k (encB b)) ks) = Some [-1; 0; 0; 0; 1] /\
+  nondecb [-1; 0; 0; 0; 1] = true /\ nondecb [0; -1] = false /\
+  keys_sortedb [[0x61; 0x00]; [0x61]] = false /\
+  (* CmpUpto = Cmp o New(truncation) on a concrete pair *)
+  CmpUpto [0x61; 0xff] (encB b) = Some 0 /\
+  match New [0x61; 0xff] 0 (Z.min (8 * zlen [0x61; 0xff]) (zlen b)) with Some e => Cmp e (encB b) | None => None end = Some 0.
+Proof.
+  cbv zeta. repeat match goal with |- _ /\ _ => split end; try (vm_compute; reflexivity).
+  repeat (apply Forall_cons; [apply bytes_okb_ok; reflexivity|]); apply Forall_nil.
+Qed.
+
+Example C09_new32_nonvacuous :
+  New32 [97; 98; 99] 5 12 = Some [0x61; 0x60; 0xf0] /\ Len32 [0x61; 0x60; 0xf0] = Some 12 /\
+  0 <= 5 <= 12 /\ 12 + 7 < 2 ^ 31 /\
+  (* the top of the range: the string is never inspected *)
+  0 <= 2 ^ 31 - 4 <= 2 ^ 31 - 1 /\ New32 [] (2 ^ 31 - 4) (2 ^ 31 - 1) = None /\
+  i32 (2 ^ 31 - 1 + 7) = - 2 ^ 31 + 6 /\
+  (* just below it nothing wraps: an empty string is rejected by the slice expression, not by make *)
+  New32 [] (2 ^ 31 - 12) (2 ^ 31 - 9) = None /\ New [] (2 ^ 31 - 12) (2 ^ 31 - 9) = None.
+Proof.
+  repeat match goal with |- _ /\ _ => split end; try (vm_compute; reflexivity); vm_compute; congruence.
+Qed.
+
+Example C09_decode_nonvacuous :
+  wf_enc [0x61; 0x60; 0xf0] = true /\
+  decB [0x61; 0x60; 0xf0] = [false; true; true; false; false; false; false; true; false; true; true; false] /\
+  wf_enc [0xff] = true /\ decB [0xff] = [] /\
+  (* not encodings: no mask byte / a mask that is not a run of high bits / bits outside the mask /
+     no payload but a partial mask / a non-byte *)
+  wf_enc [] = false /\ wf_enc [0x61; 0x0f] = false /\ wf_enc [0x61; 0x68; 0xf0] = false /\
+  wf_enc [0xf0] = false /\ wf_enc [256; 0xff] = false /\
+  Cmp [0x61; 0x60; 0xf0] [0x61; 0x60; 0xf8] = Some (-1).
+Proof. repeat match goal with |- _ /\ _ => split end; vm_compute; reflexivity. Qed.
